@@ -299,7 +299,7 @@ def operations():
     return da, O
 
 
-NEEDS_TIME_FIRST = {"zonal_mean"}          # documented (T, Y, X) input
+NEEDS_TIME_FIRST = set()
 CORE_TIME_OPS = None
 
 
@@ -382,11 +382,22 @@ def _dasksched_task(task, p):
 
 
 # =============================================================================================== (c) CONFIG
+FLOAT_DTYPES = {
+    "whits": ("float64", "float32"), "whits_sg_p": ("float64",), "whitsvc": ("float64", "float32"), "whitsvc_p": ("float64",),
+    "whitswcv": ("float64",), "whitswcv_p_robust": ("float64",), "spi": ("float64", "float32"), "spi_groups": ("float32",),
+    "mktrend": ("float32",), "mean_grp": ("float32", "int64"), "rolling_sum": ("float32", "int64"), "zonal_mean": ("float32", "float64"),
+}
+FEW_CHUNKINGS = [((3,), (4,)), ((1, 1, 1), (1, 1, 1, 1)), ((2, 1), (2, 2)), ((1, 2), (3, 1))]
+
+
 def _config_task(task, p):
     import dask
-    name, orders, scheds = task
+    name, orders, scheds = task[:3]
+    dtype = task[3] if len(task) > 3 else "int16"
     sub = "configurations"
     da, O = operations()
+    if dtype != "int16":
+        da = da.astype(dtype).assign_attrs(da.attrs)
     f = O[name]
     with warnings.catch_warnings():
         warnings.simplefilter("ignore")
@@ -394,6 +405,7 @@ def _config_task(task, p):
     n_eval = 0
     ycomps = list(sse.compositions(3))
     xcomps = list(sse.compositions(4))
+    pairs = [(yc, xc) for yc in ycomps for xc in xcomps] if dtype == "int16" else FEW_CHUNKINGS
     for order in orders:
         if name in NEEDS_TIME_FIRST and order[0] != "time":
             continue
@@ -403,15 +415,15 @@ def _config_task(task, p):
             try:
                 eager_o = materialise(f(dao))
             except Exception as e:
-                p.violation(sub, {"op": name, "order": list(order), "what": "eager"}, {"kind": "config", "op": name},
-                            f"{name} on in-memory data with dims {order} raised {type(e).__name__}: {e}")
+                p.violation(sub, {"op": name, "order": list(order), "what": "eager", "dtype": dtype}, {"kind": "config", "op": name, "dtype": dtype},
+                            f"{name} [{dtype}] on in-memory data with dims {order} raised {type(e).__name__}: {e}")
                 continue
         msg = same(eager, eager_o, canon_dims=True)
         if msg:
-            p.violation(sub, {"op": name, "order": list(order), "what": "layout"}, {"kind": "config", "op": name},
-                        f"{name}: in-memory result for dims {order} differs from dims (time,y,x): {msg}")
-        for yc in ycomps:
-            for xc in xcomps:
+            p.violation(sub, {"op": name, "order": list(order), "what": "layout", "dtype": dtype}, {"kind": "config", "op": name, "dtype": dtype},
+                        f"{name} [{dtype}]: in-memory result for dims {order} differs from dims (time,y,x): {msg}")
+        for yc, xc in pairs:
+            if True:
                 ch = {"time": -1, "y": yc, "x": xc}
                 for sched, nw in scheds:
                     n_eval += 1
@@ -424,15 +436,15 @@ def _config_task(task, p):
                             with dask.config.set(**kw):
                                 res = materialise(f(dao.chunk(ch)))
                     except Exception as e:
-                        p.violation(sub, {"op": name, "order": list(order), "chunks": [list(yc), list(xc)], "scheduler": [sched, nw]},
-                                    {"kind": "config", "op": name}, f"{name} dims {order} chunks y={yc} x={xc} [{sched},{nw}] raised {type(e).__name__}: {e}")
+                        p.violation(sub, {"op": name, "order": list(order), "chunks": [list(yc), list(xc)], "scheduler": [sched, nw], "dtype": dtype},
+                                    {"kind": "config", "op": name, "dtype": dtype}, f"{name} [{dtype}] dims {order} chunks y={yc} x={xc} [{sched},{nw}] raised {type(e).__name__}: {e}")
                         continue
                     msg = same(eager_o, res)
                     if msg:
-                        p.violation(sub, {"op": name, "order": list(order), "chunks": [list(yc), list(xc)], "scheduler": [sched, nw]},
-                                    {"kind": "config", "op": name}, f"{name} dims {order} chunks y={yc} x={xc} [{sched},{nw}]: {msg}")
+                        p.violation(sub, {"op": name, "order": list(order), "chunks": [list(yc), list(xc)], "scheduler": [sched, nw], "dtype": dtype},
+                                    {"kind": "config", "op": name, "dtype": dtype}, f"{name} [{dtype}] dims {order} chunks y={yc} x={xc} [{sched},{nw}]: {msg}")
     p.count(sub, evaluations=n_eval, states=n_eval, transitions=n_eval, traces_validated_against_impl=n_eval, nontrivial=n_eval)
-    p.sample(sub, {"op": name, "orders": [list(o) for o in orders], "yx_chunkings": 32, "schedulers": scheds})
+    p.sample(sub, {"op": name, "dtype": dtype, "orders": [list(o) for o in orders], "yx_chunkings": len(pairs), "schedulers": scheds})
 
 
 def _time_chunk_task(task, p):
@@ -728,6 +740,10 @@ def run(ctx):
     for name in names:
         for o in orders:
             tasks.append(("config", (name, [o], scheds)))
+        # other input dtypes: all six layouts (in-memory and a few chunkings); a kernel compiled for one memory layout
+        # only shows on inputs that reach it without a cast
+        for dt in FLOAT_DTYPES.get(name, ()):
+            tasks.append(("config", (name, all_orders, scheds[:1] if not ctx.thorough() else scheds[:2], dt)))
         tasks.append(("time_chunk", name))
         if name in ("zonal_mean", "whits_sg_p", "whitsvc_lc"):
             continue   # zonal statistics aggregate over pixels by definition; per-pixel auxiliary rasters are tied to the 3x4 grid
@@ -759,7 +775,7 @@ def replay(sub, case, p):
     elif k == "dasksched":
         _dasksched_task((case["op"], case["chunks"], case.get("bound", 1)), p)
     elif k == "config":
-        _config_task((case["op"], [("time", "y", "x"), ("y", "x", "time"), ("y", "time", "x")], [("synchronous", None), ("threads", 4)]), p)
+        _config_task((case["op"], list(itertools.permutations(("time", "y", "x"))), [("synchronous", None), ("threads", 4)], case.get("dtype", "int16")), p)
     elif k == "timechunk":
         _time_chunk_task(case["op"], p)
     elif k == "perm":
